@@ -40,4 +40,5 @@ def main(tier):
     chk.run("R-INTRANGE", RG.intrange, r, parts=('gate', 'leaf'), floor=150)
     chk.run("R-ATTRAGREE", V.attragree, cx.repo, floor=5)
     chk.run("R-TYPEREACH", T.typereach, cx.repo, cx.schema, cx.sites, floor=4)
+    chk.run("R-ELEMSIZE", V.elemsize, cx.repo, cx.schema, cx.sites, floor=4)
     return chk.finish()
